@@ -36,6 +36,9 @@ Inductive yop :=
 | YStoreRaw (ord : N) (custom : bool) (k : kspec) (p : pspec) (lease : Z)      (* zero expiration *)
 | YResume (q : qsid) (want : bool) (cmd : Z) (ok : bool) (rep : reply)
           (authd : bool) (user valid : option str) (encflag resumed keyok : bool)
+| YResumeInv (q : qsid) (want : bool) (cmd : Z) (ok : bool) (rep : reply)
+          (authd : bool) (user valid : option str) (encflag resumed keyok : bool)
+          (icustom : bool) (iret : bool)   (* Invalidate(q) on that cache landed while the reply was being written *)
 | YRenew (ord : N) (custom : bool) (found : bool)
 | YTick (dt : Z)
 | YInvalidate (ord : N) (custom : bool) (ret : bool)
@@ -69,20 +72,11 @@ Definition reply_kind_eqb (a b : reply) : bool :=
   | _, _ => false
   end.
 
-Definition step (st : srv * Z) (o : yop) : option (srv * Z) :=
-  let '(s, now) := st in
-  match o with
-  | YStore ord cu k a u v dur lease =>
-      Some (set_cache s cu (store (cache_of s cu)
-              (mk_entry ord k (pol_of (PSome a u v)) (Some (now + dur)) lease)), now)
-  | YStoreP ord cu k p dur lease =>
-      Some (set_cache s cu (store (cache_of s cu) (mk_entry ord k (pol_of p) (Some (now + dur)) lease)), now)
-  | YStoreRaw ord cu k p lease =>
-      Some (set_cache s cu (store (cache_of s cu) (mk_entry ord k (pol_of p) None lease)), now)
-  | YResume q want cmd ok rep a u v ef rs kok =>
+Definition resume_step (s : srv) (now : Z) (q : qsid) (want : bool) (cmd : Z) (ok : bool) (rep : reply)
+  (a : bool) (u v : option str) (ef rs kok : bool) : option srv :=
       let '(s', mrep, res) := handle_resumption s now {| q_sid := qsid_str q; q_want_reply := want; q_command := Some cmd |} 60010 in
       match res with
-      | SErr => if negb ok && reply_kind_eqb mrep rep then Some (s', now) else None
+      | SErr => if negb ok && reply_kind_eqb mrep rep then Some s' else None
       | SOk n sst =>
           if ok && reply_kind_eqb mrep rep && Bool.eqb (n_authentication n) a && str_opt_eqb (n_user n) u
              && str_opt_eqb (n_valid n) v && Bool.eqb (n_encryption n) ef && Bool.eqb (n_resumed n) rs
@@ -95,7 +89,27 @@ Definition step (st : srv * Z) (o : yop) : option (srv * Z) :=
                                   end
                               | _, _ => false
                               end)
-          then Some (s', now) else None
+          then Some s' else None
+      end.
+
+Definition step (st : srv * Z) (o : yop) : option (srv * Z) :=
+  let '(s, now) := st in
+  match o with
+  | YStore ord cu k a u v dur lease =>
+      Some (set_cache s cu (store (cache_of s cu)
+              (mk_entry ord k (pol_of (PSome a u v)) (Some (now + dur)) lease)), now)
+  | YStoreP ord cu k p dur lease =>
+      Some (set_cache s cu (store (cache_of s cu) (mk_entry ord k (pol_of p) (Some (now + dur)) lease)), now)
+  | YStoreRaw ord cu k p lease =>
+      Some (set_cache s cu (store (cache_of s cu) (mk_entry ord k (pol_of p) None lease)), now)
+  | YResume q want cmd ok rep a u v ef rs kok =>
+      match resume_step s now q want cmd ok rep a u v ef rs kok with Some s' => Some (s', now) | None => None end
+  | YResumeInv q want cmd ok rep a u v ef rs kok icu iret =>
+      match resume_step s now q want cmd ok rep a u v ef rs kok with
+      | Some s' =>
+          let '(c', r) := invalidate (cache_of s' icu) (qsid_str q) in
+          if Bool.eqb r iret then Some (set_cache s' icu c', now) else None
+      | None => None
       end
   | YRenew ord cu found =>
       let c := cache_of s cu in
